@@ -93,6 +93,8 @@ class RequestModel:
         self.labels = []           # every label in issue order, with kind
         self.subs = {}             # subscription id -> label of the subscribe that got it
         self.regs = {}
+        self.racing = set()        # subscription ids: handler removed, UNSUBSCRIBE outstanding
+        self.released = set()      # subscription ids once held, now released (or release refused)
         self.issued = []           # request ids in order
 
     def outstanding(self):
@@ -124,6 +126,9 @@ class RequestModel:
             wire = [REGISTER, rid, opts, uri]
         elif kind == "unsubscribe":
             wire = [UNSUBSCRIBE, rid, target]
+            # the handler is detached at once; events racing with the UNSUBSCRIBE are dropped
+            self.subs.pop(target, None)
+            self.racing.add(target)
         elif kind == "unregister":
             wire = [UNREGISTER, rid, target]
         else:
@@ -146,7 +151,10 @@ class RequestModel:
             if kind is None or rid not in self.pending[kind]:
                 return {"v": "violation"}
             if kind == "unsubscribe":
-                pass        # the subscription stays as it was for this model's purposes
+                # the router refused; locally the handler is detached already
+                t = self.pending[kind][rid]["target"]
+                self.racing.discard(t)
+                self.released.add(t)
             return self._complete(kind, rid, ("error", error, args, kwargs))
         kind = KIND_OF_REPLY.get(code)
         if kind is None or rid not in self.pending[kind]:
@@ -168,7 +176,8 @@ class RequestModel:
             self.regs[ident] = rec["label"]
             return self._complete(kind, rid, ("registration", ident, rec["uri"]))
         if kind == "unsubscribe":
-            self.subs.pop(rec["target"], None)
+            self.racing.discard(rec["target"])
+            self.released.add(rec["target"])
             return self._complete(kind, rid, ("done",))
         if kind == "unregister":
             self.regs.pop(rec["target"], None)
@@ -176,7 +185,13 @@ class RequestModel:
         raise AssertionError(kind)
 
     def event(self, subid):
-        return {"v": "deliver"} if subid in self.subs else {"v": "violation"}
+        if subid in self.subs:
+            return {"v": "deliver"}
+        if subid in self.racing:
+            return {"v": "drop"}
+        if subid in self.released:
+            return {"v": "either"}
+        return {"v": "violation"}
 
     def invocation(self, regid):
         return {"v": "invoke"} if regid in self.regs else {"v": "violation"}
